@@ -899,6 +899,57 @@ def check_trip(ctx: Ctx, app, inv_id: str, snap, rep: dict, cid, where: str) -> 
         ctx.report("trip:identity-changed", f"[{where}] stored call has id {call.call_id.key}, the client computed {cid.key}", rep)
 
 
+def oracle_graphs(ctx: Ctx) -> None:
+    """values that are not trees: a child that knows its parent, a list that contains itself, one object reachable twice.  The
+    pickle-based serializers support them; what arrives must have the same SHAPE (who points at whom), as argument and as result,
+    inline and externalised, read by another process"""
+    def build() -> dict[str, Any]:
+        root = CT.Node("root")
+        kid = CT.Node("kid", root)
+        CT.Node("leaf", kid)
+        ring: list = ["head"]
+        ring.append(ring)
+        shared = ["s"]
+        return {"tree": root, "ring": ring, "twice": [shared, shared, {"again": shared}]}
+
+    def shape(name: str, v: Any) -> str:
+        try:
+            if name == "tree":
+                k = v.children[0]
+                return f"{type(v).__name__}:{v.name}/{k.name}/{k.children[0].name} parent-is-root={k.parent is v} grandparent={k.children[0].parent.parent is v}"
+            if name == "ring":
+                return f"len={len(v)} head={v[0]!r} self={v[1] is v}"
+            return f"same={v[0] is v[1] and v[2]['again'] is v[0]} content={v[0]!r}"
+        except BaseException as e:  # noqa: BLE001
+            return f"broken ({type(e).__name__}: {str(e)[:60]}) {str(type(v))}"
+
+    want = {n: shape(n, v) for n, v in build().items()}
+    for ser_name in ("JsonPickleSerializer", "PickleSerializer"):
+        for kind in ("mem", "sqlite"):
+            for thr in (1, 100000):
+                app = mk(ctx, kind, ser_name, min_size_to_cache=thr)
+                task = app.task(T.ident)
+                for name, v in build().items():
+                    rep = {"kind": "graph", "serializer": ser_name, "backend": kind, "threshold": thr, "value": name}
+                    ctx.count()
+                    ctx.distinct(("graph", ser_name, kind, thr, name))
+                    got: dict[str, str] = {}
+                    try:
+                        inv = task(v)
+                        app.state_backend.set_result(inv.invocation_id, build()[name])
+                        reader = other_process(app) if kind == "sqlite" else app
+                        if kind == "mem":
+                            app.client_data_store._deserialized_cache.clear()
+                        reader.task(T.ident)
+                        got["argument"] = shape(name, reader.state_backend.get_invocation(inv.invocation_id).call.arguments.kwargs["x"])
+                        got["result"] = shape(name, reader.state_backend.get_result(inv.invocation_id))
+                    except BaseException as e:  # noqa: BLE001
+                        got["error"] = f"{type(e).__name__}: {str(e)[:100]}"
+                    bad = {k: g for k, g in got.items() if g != want[name]}
+                    if bad:
+                        ctx.report(f"trip:graph-shape:{ser_name}:{name}", f"[{kind}/{ser_name}/threshold {thr}] the value `{name}` ({want[name]}) comes back as {bad}", rep)
+
+
 def oracle_known_classes(ctx: Ctx) -> None:
     """reserved-prefix strings, aliasing of the caller's object, content addressing, batch path"""
     from pynenc.app import Pynenc
@@ -1070,6 +1121,7 @@ def run(ctx: Ctx) -> None:
         drv.close()
     phase("trip oracle", oracle_trip)
     phase("known classes oracle", oracle_known_classes)
+    phase("graph values oracle", oracle_graphs)
     phase("foreign purge oracle", oracle_foreign_purge)
     ctx.assumptions += [
         "SHA-256 is a parameter of the model: callId_eq_iff (⇒) assumes no collision on the two pre-hash byte strings, the store theorems no collision on the texts that occur; digests are 64 hex characters",
